@@ -5,7 +5,8 @@ Every module's `ExportGenesis` lists the values of some record kinds (`GetAll…
 `InitGenesis` stores each listed value again under the key built from the value's own fields
 (`Set…`).  A record kind is therefore a map together with the function `keyOf` that the setter
 uses.  Kinds that `ExportGenesis` does not list are simply absent after the import.
-`exportedKinds` is the table of what each module's genesis carries (read off x/*/genesis.go);
+`exportedKinds` is the table of what each module's genesis carries (read off x/*/genesis.go; the
+kind "Params" is the module's parameter subspace, one record per key);
 the correspondence check compares it with what a real export/import round trip preserves.
 Core Lean only.
 -/
@@ -22,12 +23,12 @@ def importKind {V : Type} (keyOf : V → String) (l : List V) : AMap String V :=
 /-- record kinds each module's genesis carries: (module, kinds exported and re-imported) -/
 def exportedKinds : List (String × List String) :=
   [("storage", ["FilesByMerkle", "FilesByOwner", "Providers", "StoragePaymentInfo", "Collateral",
-                "Attestation", "Report", "PaymentGauge"]),
-   ("rns", ["Whois", "Names", "Bids", "Forsale", "Init"]),
-   ("filetree", ["Files", "Pubkey"]),
-   ("oracle", ["Feed"]),
-   ("notification", ["Notification"]),
-   ("jklmint", [])]
+                "Attestation", "Report", "PaymentGauge", "Params"]),
+   ("rns", ["Whois", "Names", "Bids", "Forsale", "Init", "Params"]),
+   ("filetree", ["Files", "Pubkey", "Params"]),
+   ("oracle", ["Feed", "Params"]),
+   ("notification", ["Notification", "Params"]),
+   ("jklmint", ["Params"])]
 
 /-- kinds the keepers write that no genesis carries (each one is a recorded finding) -/
 def omittedKinds : List (String × List String) :=
